@@ -73,6 +73,13 @@ def names_in(e):
   return {n.id for n in ast.walk(e) if isinstance(n, ast.Name)}
 
 
+# statements a setter is known to contain after its guards besides the single store of the validated field (reviewed text):
+# the refresh of a cache derived from the field.  Anything else — a second store (`self._start = …` in the `reserve`
+# setter), a missing refresh, a call — makes the setter UNTRANSLATABLE: it then does more (or less) than "accept iff the
+# guards pass and keep the value", which is all the generated `…_ok` predicate says.
+EXTRA_AFTER_STORE = {('SDevice', 'sustainment'): ['self._sustainment_matrix = sustainment_matrix(sustainment, len(self))']}
+
+
 def translate_setter(fn, cls):
   """-> (lean def text, params) or raises Unsupported."""
   args = [a.arg for a in fn.args.args]
@@ -80,7 +87,7 @@ def translate_setter(fn, cls):
     raise Unsupported('setter signature')
   x = args[1]
   tr = VTr()
-  conds, stored, phase = [], False, 'guards'
+  conds, stored, phase, extra = [], False, 'guards', []
   for s in fn.body:
     if isinstance(s, ast.Expr) and isinstance(s.value, ast.Constant) and isinstance(s.value.value, str):
       continue
@@ -95,9 +102,15 @@ def translate_setter(fn, cls):
             and isinstance(s.targets[0].value, ast.Name) and s.targets[0].value.id == 'self' and s.targets[0].attr.startswith('_')):
       raise Unsupported(type(s).__name__ + ' after the guards')
     if s.targets[0].attr == '_' + fn.name:
+      if stored: raise Unsupported('stores the field twice')
       if not (isinstance(s.value, ast.Name) and s.value.id == x):
         raise Unsupported('stores something other than the supplied value')
       stored = True
+    else:
+      extra.append(ast.unparse(s))
+  if extra != EXTRA_AFTER_STORE.get((cls, fn.name), []):
+    raise Unsupported('statements besides the guards and the store of the field differ from the reviewed ones: %s (reviewed: %s)'
+                      % (extra, EXTRA_AFTER_STORE.get((cls, fn.name), [])))
   if not conds:
     raise Unsupported('no guard')
   if not stored:
@@ -123,6 +136,8 @@ variable {{α : Type}} [Add α] [Sub α] [Mul α] [Div α] [Neg α] [OfNat α 0]
 
 def translate_validators(repo):
   out, units, fallback, shas, srcs = [], [], [], [], []
+  from . import translate_vec as TV
+  tainted, _ = TV.scan_bindings(os.path.join(repo, 'device_kit'), {c for _, c, _ in SETTERS} | {c for _, c, _, _ in CTOR_CHECKS})
   for fname, cls, names in SETTERS:
     path = os.path.join(repo, 'device_kit', fname)
     src = open(path).read(); shas.append(src); srcs.append('device_kit/' + fname)
@@ -139,6 +154,9 @@ def translate_validators(repo):
       where = f"{fname}:{fn.lineno}" if fn else fname
       if fn is None:
         out.append(f"-- UNTRANSLATABLE {cls}.{nm}: setter not found\n"); fallback.append((lname, where, 'missing')); continue
+      if (cls, nm) in tainted or (cls, '*') in tainted:
+        why = 'the `def` is not what the name denotes: ' + tainted.get((cls, nm), tainted.get((cls, '*')))
+        out.append(f"-- UNTRANSLATABLE {cls}.{nm} ({where}): {why}\n"); fallback.append((lname, where, why)); continue
       try:
         conds, params = translate_setter(fn, cls)
       except Unsupported as u:
